@@ -194,6 +194,11 @@ fn write_chunk(input: &[u8], input_used: &mut usize, w: &mut Writer, max_chunk: 
 
     let to_write = input.len().min(max_chunk).min(available);
 
+    // A zero sized chunk would signal the end of the body.
+    if to_write == 0 {
+        return false;
+    }
+
     let success = w.try_write(|w| {
         // chunk length
         write!(w, "{:0x?}\r\n", to_write)?;
